@@ -532,6 +532,79 @@ Proof.
   - eapply Forall_impl; [|exact Hd]. intros e He. unfold tover. apply N.leb_le. exact He.
 Qed.
 
+(* ------------------------------------------------------------------------------------ *)
+(* stopping the reader: every prefix of the POST sequence accepts each event at most once *)
+Lemma accepted_app : forall a b, accepted (a ++ b) = accepted a ++ accepted b.
+Proof. intros. unfold accepted. rewrite filter_app, flat_map_app. reflexivity. Qed.
+
+Lemma filter_snd_round_posts : forall r,
+  filter snd (round_posts r) = map (fun a => (r_batch r, snd a)) (filter snd (r_attempts r)).
+Proof.
+  intros r. unfold round_posts. induction (r_attempts r) as [|a l IH]; [reflexivity|].
+  cbn [map filter snd]. destruct (snd a) eqn:E; cbn [map]; rewrite IH; [rewrite E|]; reflexivity.
+Qed.
+
+Lemma accepted_round : forall r, round_ok r ->
+  accepted (round_posts r) = [] \/ accepted (round_posts r) = r_batch r.
+Proof.
+  intros r (_ & _ & _ & Ha). unfold accepted. rewrite filter_snd_round_posts.
+  destruct Ha as [[_ ->]|[_ Hsh]]; [left; reflexivity|].
+  apply attempts_shape_facts in Hsh. destruct Hsh as (_ & _ & H1 & _).
+  destruct (filter snd (r_attempts r)) as [|a [|b l]]; cbn in H1; try lia.
+  - left. reflexivity.
+  - right. cbn. apply app_nil_r.
+Qed.
+
+Lemma nodup_app_r : forall {X} (a b : list X), NoDup (a ++ b) -> NoDup b.
+Proof. intros X a b H. induction a as [|x a IH]; [exact H|]. inversion H; subst. auto. Qed.
+
+Lemma nodup_app_l : forall {X} (a b : list X), NoDup (a ++ b) -> NoDup a.
+Proof.
+  intros X a b H. induction a as [|x a IH]; [constructor|]. cbn in H. inversion H; subst.
+  constructor; [|auto]. intros C. apply H2. apply in_or_app. left. exact C.
+Qed.
+
+Lemma nodup_app_sub : forall {X} (a b b' : list X),
+  NoDup (a ++ b) -> NoDup b' -> (forall x, In x b' -> In x b) -> NoDup (a ++ b').
+Proof.
+  intros X a b b' H Hb' Hin. induction a as [|x a IH]; [exact Hb'|].
+  cbn in *. inversion H; subst. constructor; [|apply IH; assumption].
+  intros C. apply H2. apply in_app_or in C. apply in_or_app. destruct C; auto.
+Qed.
+
+Lemma accepted_trace_in : forall rs x, Forall round_ok rs ->
+  In x (accepted (post_trace rs)) -> In x (flat_map r_batch rs).
+Proof.
+  intros rs x H. induction H as [|r rs Hr _ IH]; [intros []|].
+  unfold post_trace in *. cbn [flat_map]. rewrite accepted_app. intros Hin.
+  apply in_app_or in Hin. apply in_or_app. destruct Hin as [Hin|Hin]; [|right; apply IH; exact Hin].
+  left. destruct (accepted_round r Hr) as [E|E]; rewrite E in Hin; [destruct Hin|exact Hin].
+Qed.
+
+Lemma accepted_trace_nodup : forall rs, Forall round_ok rs ->
+  NoDup (flat_map r_batch rs) -> NoDup (accepted (post_trace rs)).
+Proof.
+  intros rs H. induction H as [|r rs Hr Hrs IH]; intros Hn; [constructor|].
+  unfold post_trace in *. cbn [flat_map] in *. rewrite accepted_app.
+  assert (Hrest : NoDup (accepted (flat_map round_posts rs))).
+  { apply IH. eapply nodup_app_r. exact Hn. }
+  destruct (accepted_round r Hr) as [E|E]; rewrite E; [exact Hrest|].
+  eapply nodup_app_sub; [exact Hn|exact Hrest|]. intros x. apply accepted_trace_in. exact Hrs.
+Qed.
+
+Lemma stopped_at_most_once : forall evs o rs o' n,
+  send_events vm env evs o = Some (rs, o') ->
+  NoDup (map conv evs) ->
+  NoDup (accepted (stopped_after n rs)).
+Proof.
+  intros evs o rs o' n H Hn.
+  assert (Hall : NoDup (accepted (post_trace rs))).
+  { apply accepted_trace_nodup; [eapply send_events_rounds_ok; eauto|].
+    eapply nodup_app_l. eapply send_events_nodup; eauto. }
+  unfold stopped_after. rewrite <- (firstn_skipn n (post_trace rs)), accepted_app in Hall.
+  eapply nodup_app_l. exact Hall.
+Qed.
+
 (* ==================================================================================== *)
 (* 7. files                                                                              *)
 (* ==================================================================================== *)
